@@ -41,6 +41,8 @@ pub struct Trace {
     pub prefill: Vec<u8>,
     pub grows: Vec<Grow>,
     pub ops: Vec<Op>,
+    /// Owned writers only: the k-th allocation request made *inside write operations* fails (once)
+    pub alloc_fail_at: Option<u32>,
 }
 
 impl Trace {
@@ -57,6 +59,9 @@ impl Trace {
             }
         ));
         s.push_str(&format!("cap {}\nroom {}\nprefill {}\n", self.cap, self.room, hex(&self.prefill)));
+        if let Some(k) = self.alloc_fail_at {
+            s.push_str(&format!("allocfail {}\n", k));
+        }
         s.push_str("grows");
         for g in &self.grows {
             match g {
@@ -88,6 +93,7 @@ impl Trace {
             prefill: vec![],
             grows: vec![],
             ops: vec![],
+            alloc_fail_at: None,
         };
         for line in text.lines() {
             let line = line.trim();
@@ -110,6 +116,7 @@ impl Trace {
                         _ => return Err("bad kind".into()),
                     }
                 }
+                "allocfail" => t.alloc_fail_at = Some(toks.get(1).and_then(|x| x.parse().ok()).ok_or("bad allocfail")?),
                 "cap" => t.cap = toks.get(1).and_then(|x| x.parse().ok()).ok_or("bad cap")?,
                 "room" => t.room = toks.get(1).and_then(|x| x.parse().ok()).ok_or("bad room")?,
                 "prefill" => t.prefill = unhex(toks.get(1).copied().unwrap_or("")).ok_or("bad prefill")?,
@@ -306,5 +313,26 @@ pub fn gen_trace(seed: u64, run: u64, miri: bool) -> Trace {
             }
         }
     }
-    Trace { seed, run, kind, cap, room, prefill, grows, ops }
+    Trace { seed, run, kind, cap, room, prefill, grows, ops, alloc_fail_at: None }
+}
+
+/// Rust-owned writer, a few growing writes, an allocation failure at the k-th request, more writes
+pub fn gen_allocfault_trace(seed: u64, run: u64) -> Trace {
+    let mut rng = Rng::derive(seed, "write-sim-allocfault", run);
+    let cap = *rng.pick(&[0usize, 1, 2, 4, 8, 16]);
+    let n = 1 + rng.below(6);
+    let mut ops = vec![];
+    for _ in 0..n {
+        let len = *rng.pick(&[0usize, 1, 3, 5, 9, 17, 40]);
+        let mb = rng.chance(1, 2);
+        ops.push(Op::Write(gen_chunk(&mut rng, len, mb)));
+        if rng.chance(1, 4) {
+            ops.push(Op::Flush);
+        }
+        if rng.chance(1, 3) {
+            ops.push(Op::Access);
+        }
+    }
+    ops.push(Op::Access);
+    Trace { seed, run, kind: Kind::Owned, cap, room: 0, prefill: vec![], grows: vec![], ops, alloc_fail_at: Some(rng.below(3)) }
 }
